@@ -24,7 +24,9 @@ RULE = ("Hypothesis draws (a) single calls (routine, operator, key, parameters) 
         "bit-identical and the object's fields unchanged."
         " Further: mode cap (a counting operator under the function, Hutch(...) and Auto(...): probe blocks <="
         " max_iters), Rademacher exactness at n in {99,100,101,150,260} and on operators whose only non-zero diagonal"
-        " is the k-th.")
+        " is the k-th."
+        " Round 5: a twin call with the same key, operator and size and the other probe distribution inside one"
+        " history.")
 ASSUMPTIONS = [
     "z = 7 with closed-form variance (Gaussian: sum_j M_ij^2 + M_{i,i+k}^2; Rademacher: sum_{j != i+k} M_ij^2): false-alarm probability ~1e-11 per entry; detects bias of the order of the entries, not far below the sampling error",
     "the stopping rule is disabled by tol = 1.0001e-3 (just above the routine's assert) and a fixed max_iters; the number of probes is read from info['iterations']",
